@@ -373,7 +373,7 @@ func (e *Exec) sendNow(p uintptr, c int, keep interface{}, v interface{}, h uint
 }
 
 // ChanLen is len(ch) for a shadowed channel.
-func ChanLen[C ~chan T | ~<-chan T | ~chan<- T, T any](ch C) int {
+func ChanLen[C ~chan T | ~<-chan T, T any](ch C) int {
 	e := cur
 	if e == nil || e.cur == nil {
 		return 0
@@ -388,7 +388,7 @@ func ChanLen[C ~chan T | ~<-chan T | ~chan<- T, T any](ch C) int {
 }
 
 // ChanInfo reports shadow length / closed flag for oracles (no hb effect).
-func ChanInfo[C ~chan T | ~<-chan T | ~chan<- T, T any](ch C) (n int, closed bool) {
+func ChanInfo[C ~chan T | ~<-chan T, T any](ch C) (n int, closed bool) {
 	e := cur
 	if e == nil {
 		return 0, false
